@@ -103,20 +103,9 @@ Proof. exact roots_config_atomic. Qed.
 Theorem C10_feature_gate : honest W_feature_gate.
 Proof. exact feature_gate_honest. Qed.
 
-(* ---------- autopilot: REFUTED for an absent configuration, proved otherwise ---------- *)
-(* full statement: honest W_autopilot.  It is false of the faithful model: *)
-Theorem C10_autopilot_refuted : ~ honest W_autopilot.
-Proof. exact autopilot_honest_refuted. Qed.
-
-Theorem C10_autopilot_partial : honest_on (fun s _ => is_Some (autopilot s)) W_autopilot.
-Proof. exact autopilot_honest_present. Qed.
-
-(* the report itself is honest in every state *)
-Theorem C10_autopilot_reported_iff_applied : forall s c,
-  (cw_ok W_autopilot s c = true ->
-   cw_matched W_autopilot s c = true /\ cw_post W_autopilot s c = cw_write W_autopilot s c) /\
-  (cw_ok W_autopilot s c = false -> cw_post W_autopilot s c = s).
-Proof. exact autopilot_reported_iff_applied. Qed.
+(* ---------- autopilot (expected index zero = no configuration stored; repaired by 3cef259) ---------- *)
+Theorem C10_autopilot : honest W_autopilot.
+Proof. exact autopilot_honest. Qed.
 
 (* ---------- ACL token set with the CAS option: REFUTED, success is reported without a match ---------- *)
 (* full statement: honest W_token.  Witness: token t1 stored at index 5, request expecting index 3 *)
@@ -238,9 +227,7 @@ Print Assumptions C10_ca_roots.
 Print Assumptions C10_roots_and_config.
 Print Assumptions C10_roots_and_config_atomic.
 Print Assumptions C10_feature_gate.
-Print Assumptions C10_autopilot_refuted.
-Print Assumptions C10_autopilot_partial.
-Print Assumptions C10_autopilot_reported_iff_applied.
+Print Assumptions C10_autopilot.
 Print Assumptions C10_acl_token_refuted.
 Print Assumptions C10_acl_token_not_honest.
 Print Assumptions C10_acl_token_partial.
